@@ -206,3 +206,83 @@ def graph_parts(g: bytes) -> dict:
         "nodes": nodes,
         "initializers": [tensor(v) for f, _, v in fs if f == GRAPH_INITIALIZER],
     }
+
+
+def graph_inputs(g: bytes) -> list:
+    """graph.input as [{name, elem_type, has_shape, dims}] (ValueInfoProto.type.tensor_type; dims: int or str)."""
+    out = []
+    for f, _, v in fields(g):
+        if f != GRAPH_INPUT:
+            continue
+        vf = fields(v)
+        name = next((x.decode() for k, _, x in vf if k == 1), "")
+        tp = next((x for k, _, x in vf if k == 2), None)
+        info = {"name": name, "elem_type": None, "has_shape": False, "dims": None}
+        if tp is not None:
+            tt = next((x for k, _, x in fields(tp) if k == 1), None)  # TypeProto.tensor_type
+            if tt is not None:
+                tf = fields(tt)
+                info["elem_type"] = next((x for k, _, x in tf if k == 1), 0)
+                shp = next((x for k, _, x in tf if k == 2), None)
+                if shp is not None:
+                    info["has_shape"] = True
+                    dims = []
+                    for k, _, d in fields(shp):
+                        if k == 1:
+                            df = fields(d)
+                            dv = next((x for kk, _, x in df if kk == 1), None)
+                            dp = next((x.decode() for kk, _, x in df if kk == 2), None)
+                            dims.append(dv if dv is not None else dp if dp is not None else None)
+                    info["dims"] = dims
+        out.append(info)
+    return out
+
+
+MODEL_FUNCTIONS = 25
+FUNC = dict(name=1, input=4, output=5, attribute=6, node=7, domain=10, attribute_proto=11)
+
+
+def functions_of_model(b: bytes) -> list:
+    """ModelProto.functions as [{name, domain, attribute (declared names), nodes: [{op_type, attrs}]}]."""
+    out = []
+    for f, _, v in fields(b):
+        if f != MODEL_FUNCTIONS:
+            continue
+        ff = fields(v)
+        nodes = []
+        for k, _, x in ff:
+            if k == FUNC["node"]:
+                nf = fields(x)
+                nodes.append({"op_type": next((y.decode() for kk, _, y in nf if kk == NODE_OPTYPE), ""),
+                              "attrs": [attribute(y) for kk, _, y in nf if kk == NODE_ATTRIBUTE]})
+        out.append({"name": next((x.decode() for k, _, x in ff if k == FUNC["name"]), ""),
+                    "domain": next((x.decode() for k, _, x in ff if k == FUNC["domain"]), ""),
+                    "attribute": [x.decode() for k, _, x in ff if k == FUNC["attribute"]],
+                    "nodes": nodes})
+    return out
+
+
+def type_proto(b: bytes):
+    """TypeProto -> ('tensor', elem_type, dims | None) | ('seq', inner) | ('opt', inner) | ('map', key, inner) | ('other',)
+    dims: list of int (dim_value), str (dim_param) or None (neither); None instead of a list = no shape field."""
+    for k, _, v in fields(b):
+        if k == 1:  # tensor_type
+            tf = fields(v)
+            shp = next((x for kk, _, x in tf if kk == 2), None)
+            dims = None
+            if shp is not None:
+                dims = []
+                for kk, _, d in fields(shp):
+                    if kk == 1:
+                        df = fields(d)
+                        dv = next((x for k3, _, x in df if k3 == 1), None)
+                        dp = next((x.decode() for k3, _, x in df if k3 == 2), None)
+                        dims.append(dv if dv is not None else dp)
+            return ("tensor", next((x for kk, _, x in tf if kk == 1), 0), dims)
+        if k in (4, 9):  # sequence_type / optional_type
+            inner = next((x for kk, _, x in fields(v) if kk == 1), b"")
+            return ("seq" if k == 4 else "opt", type_proto(inner))
+        if k == 5:
+            mf = fields(v)
+            return ("map", next((x for kk, _, x in mf if kk == 1), 0), type_proto(next((x for kk, _, x in mf if kk == 2), b"")))
+    return ("other",)
